@@ -218,9 +218,7 @@ theorem keptCells_cons (cells : Nat → Val) (ign : Bool) (r : Nat) (rest : List
 theorem scanNth_spec (cells : Nat → Val) (ign : Bool) (n : Nat) : ∀ (rows : List Nat) (val : Val) (count : Nat),
     count < n →
     scanNth cells ign n rows val count =
-      match (keptCells cells ign rows)[n - 1 - count]? with
-      | some v => v
-      | none => ((rows.map cells).getLast?).getD val := by
+      ((keptCells cells ign rows)[n - 1 - count]?).getD (((rows.map cells).getLast?).getD val) := by
   intro rows
   induction rows with
   | nil => intro val count _; simp [scanNth, keptCells]
@@ -1130,6 +1128,18 @@ theorem assoc_flatMap {κ : Type} (exec : List Nat → List (Nat × β)) (i : Na
         · exact h
       exact ih (fun part hp => hmem part (List.mem_cons_of_mem _ hp)) h0' hi
         (fun part hp => huniq part (List.mem_cons_of_mem _ hp))
+
+theorem flatMap_congr' {α γ : Type} (f g : α → List γ) : ∀ (l : List α), (∀ a ∈ l, f a = g a) →
+    l.flatMap f = l.flatMap g
+  | [], _ => rfl
+  | a :: l, h => by
+    simp only [List.flatMap_cons]
+    rw [h a (by simp), flatMap_congr' f g l (fun b hb => h b (List.mem_cons_of_mem _ hb))]
+
+theorem nodup_reverse' {α : Type} (l : List α) (h : l.Nodup) : l.reverse.Nodup := by
+  rw [List.nodup_iff_pairwise_ne] at h ⊢
+  rw [List.pairwise_reverse]
+  exact h.imp (fun hab => fun e => hab e.symm)
 
 theorem flatMap_flatten {α γ : Type} (f : α → List γ) : ∀ (L : List (List α)),
     (L.flatMap fun c => c.flatMap f) = L.flatten.flatMap f
